@@ -12,6 +12,7 @@ Verdict: only what a P monitor rejects on G (graph or recorded trace) is a viola
 """
 import json
 import os
+import shutil
 
 from vf import build, recs, graph
 
@@ -187,11 +188,36 @@ def _transport(ctx, texe, wd, cov):
     return stats["distinct"] + rstats["distinct"], stats["generated"] + rstats["generated"]
 
 
+def _replay_file(ctx, exe, texe):
+    """check C14 --replay f: re-execute the recorded token path on the real code and let the monitor judge it"""
+    with open(ctx.replay_path) as f:
+        rp = json.load(f)
+    r = rp["replay"]
+    wd = os.path.join(recs.workdir("C14"), "replay-%d" % os.getpid())
+    os.makedirs(wd, exist_ok=True)
+    toks = (r.get("minimal_reproduction") or r)["tokens"]
+    tf, pf = wd + "/r.tok", wd + "/r.ndjson"
+    with open(tf, "w") as f:
+        f.write("\n".join(toks) + "\n")
+    transport = r.get("harness") == "c14_transport"
+    recs.run_harness(ctx, texe if transport else exe, ["replay", pf, tf])
+    mod = "C14TGraph" if transport else "C14Graph"
+    _, found = graph.check(ctx, mod, mod + ".cfg", pf, env={"VF_CAP": "16"}, workers=2, heap="2g", tag="C14-replayfile")
+    for sig, t in found:
+        ctx.violation(sig, "replayed token path is rejected by the P monitor after %d steps" % len(t), r)
+    ctx.coverage = {"states": len(toks) + 1, "transitions": len(toks), "traces_validated_against_impl": 1,
+                    "samples": [{"tokens": toks, "signatures": [s for s, _ in found]}]}
+    shutil.rmtree(wd, ignore_errors=True)
+
+
 def run(ctx):
     ctx.level = "model_checking"
     exe = build.build("c14_enh", ["c14_enh.cpp"], ["ebus", "utils_noclock"])
     texe = build.build("c14_transport", ["c14_transport.cpp"], ["ebus", "utils"])
-    wd = recs.workdir("C14")
+    if getattr(ctx, "replay_path", None):
+        return _replay_file(ctx, exe, texe)
+    wd = os.path.join(recs.workdir("C14"), str(os.getpid()))   # concurrent runs (mutation tests) do not share files
+    os.makedirs(wd, exist_ok=True)
     cov = {}
     s1, t1, conforms = _device(ctx, exe, wd, cov)
     s2, t2, ntraces = _device_random(ctx, exe, wd, cov)
@@ -211,6 +237,7 @@ def run(ctx):
                 "model; every device configuration and the transport graph are extracted from the real objects to a fix-point",
     })
     ctx.coverage = cov
+    shutil.rmtree(wd, ignore_errors=True)
     ctx.assumptions = [
         "the fake transport has the read semantics of FileTransport (timeout > 0 hands over the buffer only when new bytes arrived; "
         "timeout 0 returns what is buffered); recv is called with timeout 0 exactly after RESULT_CONTINUE, as the protocol handler does",
